@@ -70,3 +70,24 @@ Definition storable (bk : backend) (perm fl : fset) : fset :=
 
 (* N lists used as UID sets *)
 Definition memN (n : N) (l : list N) : bool := existsb (N.eqb n) l.
+
+(* maildir COPY / MOVE between two folders: the file-name info letters are
+   carried as they are, i.e. written with the source folder's keyword table
+   (to_maildir) and read with the destination's (from_maildir).  A keyword
+   table is the list of keywords in letter order ('a', 'b', ...). *)
+Definition is_sys5 (f : flag) : bool :=
+  match f with FSeen | FAnswered | FFlagged | FDeleted | FDraft => true | _ => false end.
+Fixpoint index_of (f : flag) (t : list flag) : option nat :=
+  match t with
+  | [] => None
+  | g :: r => if flag_eqb f g then Some O
+              else match index_of f r with Some i => Some (S i) | None => None end
+  end.
+Definition carry_flag (src dst : list flag) (f : flag) : fset :=
+  if is_sys5 f then [f]
+  else match index_of f src with
+       | Some i => match nth_error dst i with Some g => [g] | None => [] end
+       | None => []
+       end.
+Definition maildir_carry (src dst : list flag) (fl : fset) : fset :=
+  flat_map (carry_flag src dst) fl.
